@@ -200,7 +200,7 @@ def run(ctx: Ctx) -> None:
     mark("tree4_replay")
 
     # ---- 4. spec -> code: long simulated behaviours ---------------------------------------------
-    nsim = ctx.pick(120, 1000)
+    nsim = ctx.pick(80, 1000)
     depth = ctx.pick(6, 8)
     scfg = fv.cfg_text("GSpecOps", **U_FULL, bytes_=[1, 2, 3, 4], mtimes=[1, 2], classes=fv.ALL_CLS, max_objs=3,
                        max_ops=depth, **flags, invariants=["EmitSim"], view=False)
